@@ -401,29 +401,12 @@ theorem courseEntry_not_skipped (trackId : Nat) (o : Opts) (kv : String × J) (e
 
 theorem courseIndex_some_some (co : CoursesOut) (id c : Nat) (h : courseIndex co id = some (some c)) :
     id ∉ co.skipped ∧ ∃ c0, co.courses[c]? = some c0 ∧ c0.dbid = id := by
-  unfold courseIndex at h
-  by_cases hs : co.skipped.contains id = true
-  · rw [if_pos hs] at h; cases h
-  · rw [if_neg hs] at h
-    refine ⟨by simpa using hs, ?_⟩
-    cases hf : co.courses.findIdx? (fun c => c.dbid == id) with
-    | none => rw [hf] at h; cases h
-    | some i =>
-      rw [hf] at h
-      simp only [Option.some.injEq] at h
-      subst h
-      obtain ⟨hi, hp, _⟩ := List.findIdx?_eq_some_iff_getElem.1 hf
-      exact ⟨co.courses[i], List.getElem?_eq_getElem hi, by simpa using hp⟩
+  obtain ⟨hs, hc, hd, _⟩ := (courseIndex_eq_some_some_iff co id c).1 h
+  exact ⟨hs, co.courses[c], List.getElem?_eq_getElem hc, hd⟩
 
 theorem courseIndex_some_none (co : CoursesOut) (id : Nat) (h : courseIndex co id = some none) :
-    id ∈ co.skipped := by
-  unfold courseIndex at h
-  by_cases hs : co.skipped.contains id = true
-  · simpa using hs
-  · rw [if_neg hs] at h
-    cases hf : co.courses.findIdx? (fun c => c.dbid == id) with
-    | none => rw [hf] at h; cases h
-    | some i => rw [hf] at h; cases h
+    id ∈ co.skipped :=
+  (courseIndex_eq_some_none_iff co id).1 h
 
 /-! ## 5. linking a successful `read` to the export -/
 
@@ -696,19 +679,13 @@ theorem courseIndex_iff_of_nodup (cdata : List (String × J)) (trackId : Nat) (o
       subst this
       rw [courseEntry_not_skipped trackId o kv1 e he] at hs1
       cases hs1
-    unfold courseIndex
-    have hns' : ¬ (co.skipped.contains c0.dbid = true) := by simpa using hns
-    rw [if_neg hns']
     obtain ⟨hc', hget⟩ := List.getElem?_eq_some_iff.1 hc
-    have : co.courses.findIdx? (fun x => x.dbid == c0.dbid) = some c := by
-      rw [List.findIdx?_eq_some_iff_getElem]
-      refine ⟨hc', by simp [hget], ?_⟩
-      intro j hj hp
-      have hjl : j < co.courses.length := Nat.lt_trans hj hc'
-      have := nodup_map_getElem?_inj (·.dbid) co.courses hnd j c co.courses[j] c0
-        (List.getElem?_eq_getElem hjl) hc (by simpa using hp)
-      omega
-    rw [this]
+    rw [courseIndex_eq_some_some_iff]
+    refine ⟨hns, hc', by rw [hget], ?_⟩
+    intro j hjl hj hp
+    have := nodup_map_getElem?_inj (·.dbid) co.courses hnd j c co.courses[j] c0
+      (List.getElem?_eq_getElem hjl) hc hp
+    omega
 
 /-! ## 7. the clauses -/
 
